@@ -16,6 +16,12 @@ namespace mfuse
     template<typename KeyT, typename ValueT, typename HashT, typename KeyEqT, typename AllocatorT>
     void set<KeyT, ValueT, HashT, KeyEqT, AllocatorT>::Archive(Archiver& arc)
     {
+        // what the archive announces: the members follow only once the table for them exists, so that a load
+        // that fails in between leaves a set its destructor can walk
+        uint32_t loadedLength = 0;
+        uint32_t loadedThreshold = 0;
+        uint32_t loadedCount = 0;
+
         if (arc.Loading())
         {
             clear();
@@ -42,9 +48,9 @@ namespace mfuse
                 threshold32 = tableLength32;
             }
 
-            tableLength = tableLength32;
-            threshold = threshold32;
-            count = count32;
+            loadedLength = tableLength32;
+            loadedThreshold = threshold32;
+            loadedCount = count32;
         }
         else
         {
@@ -60,11 +66,15 @@ namespace mfuse
 
         if (arc.IsReading())
         {
-            if (tableLength != 1)
+            if (loadedLength != 1)
             {
-                table = new(Entry_allocator.AllocTable(sizeof(Entry<KeyT, ValueT>*) * tableLength)) Entry<KeyT, ValueT> *[tableLength]();
-                memset(table, 0, tableLength * sizeof(Entry<KeyT, ValueT> *));
+                table = new(Entry_allocator.AllocTable(sizeof(Entry<KeyT, ValueT>*) * loadedLength)) Entry<KeyT, ValueT> *[loadedLength]();
+                memset(table, 0, loadedLength * sizeof(Entry<KeyT, ValueT> *));
             }
+
+            tableLength = loadedLength;
+            threshold = loadedThreshold;
+            count = loadedCount;
 
             for (uintptr_t i = 0; i < count; i++)
             {
